@@ -18,7 +18,7 @@ what the pool logic itself decides (double spends, missing / not yet created out
 the ledger's, height windows).  Tied to the real `chain.Manager` and `coreutils.MineBlock` by
 `harness/c05` (pool contents after every step; every mined block).
 -/
-import Verif.Lemmas.PoolFrame
+import Verif.Lemmas.PoolHistory
 
 namespace Verif.C05
 open Verif.Pool
@@ -171,44 +171,116 @@ theorem mine_valid (cfg : Cfg) (S : Nat → Bool × List Nat × List Nat) (l : L
   have := pool_prefix_valid cfg S l ops h _ _ p1 p2 p3
   exact ⟨this.1, this.2, mine_weight_le cfg _ hf⟩
 
-/-! ### retention -/
+/-! ### retention
 
-/-- **retained (partial)**: when a block is applied that touches no input of any pooled transaction
-(so it confirms none of them, spends none of their inputs and creates none), crosses no rule
-boundary, and no remembered reverted transaction becomes acceptable after it, then — unless the
-pool is full — the pool reported afterwards is exactly the pool reported before: every accepted
-transaction is still there, in the same order. -/
-theorem retained_partial (cfg : Cfg) (S : Nat → Bool × List Nat × List Nat) (l : Ledger) (ops : List Op) (h : Hist S ops)
+"Stays reported until it is confirmed, one of its inputs is spent by an applied block or its
+creation is reverted by a reverted block (also transiently inside a reorg), or it is evicted when
+the pool is full" — stated for a **self-valid set** `K1 ⊆ v1 slice, K2 ⊆ v2 slice` of the reported
+pool (`Robust`: valid as a sequence on its own; `closed_is_self_valid`: any set that contains the
+pooled creators of its members' inputs, e.g. a transaction with all its pooled ancestors;
+`whole_pool_self_valid`), because a transaction cannot outlive a pooled parent that is lost.
+
+In the model a tip change `reorg rev app` runs `revertPoolUpdate` for every block of `rev`, then
+`applyPoolUpdate` for every block of `app`, then discards the mid-state; the next entry point
+re-validates.  **"Transiently"** means: the exceptions are judged block by block, against the ledger
+and the set as they are when that block is processed (`RevPathOK`, `AppPathOK`), not on the net effect
+of the path — `RevOK.kept`: the reverted block created no input of a member; `AppOK.unspent*`: the
+applied block spends no input of a member it does not confirm.  A member that an applied block
+confirms leaves the set (`track` / `carryApp`) and its children's inputs become confirmed; it is not
+claimed to stay, also not when that block is reverted later.  The other fields of `RevOK` / `AppOK`
+are consistency of the block with the ledger it meets (leaf indices below the leaf counts, created
+elements new, the outputs of a confirmed member among the created elements); `ObsOK` at every
+entry point: the pool is not full and the tip is in a rule regime that allows the members (`ok`,
+v1 signature era, height windows); the third part of `OpSafe` for a reorg: the transactions of the
+reverted tip (re-offered once) spend nothing a member spends — they were confirmed on the chain the
+members were valid on. -/
+
+/-- **retained** (any history): let `K1, K2` be a self-valid set inside the pool reported after the
+history `pre`; then after ANY further history `ops` of submissions, tip changes and queries whose
+operations are safe for the set (`Safe`), everything that is left of the set after removing the
+members confirmed on the way (`ops.foldl track`) is reported, in order. -/
+theorem retained (cfg : Cfg) (S : Nat → Bool × List Nat × List Nat) (l : Ledger) (pre ops : List Op)
+    (h : Hist S (pre ++ Op.query :: ops)) (K1 K2 : List Txn)
+    (h1 : K1.Sublist (seen cfg (reach cfg l pre)).txns) (h2 : K2.Sublist (seen cfg (reach cfg l pre)).v2txns)
+    (hr : Robust (seen cfg (reach cfg l pre)).led K1 K2)
+    (hs : Safe cfg (seen cfg (reach cfg l pre)) (K1, K2) (ops ++ [Op.query])) :
+    (ops.foldl track (K1, K2)).1.Sublist (seen cfg (reach cfg l (pre ++ Op.query :: ops))).txns ∧
+    (ops.foldl track (K1, K2)).2.Sublist (seen cfg (reach cfg l (pre ++ Op.query :: ops))).v2txns := by
+  have hpre : Hist S pre := fun op hop => h op (List.mem_append_left _ hop)
+  have hops : ∀ op ∈ ops ++ [Op.query], OpConf S op := by
+    intro op hop
+    rcases List.mem_append.1 hop with hop | hop
+    · exact h op (List.mem_append_right _ (List.mem_cons_of_mem _ hop))
+    · simp only [List.mem_singleton] at hop; subst hop; trivial
+  obtain ⟨gc, gi, gv⟩ := seen_good cfg S l pre hpre
+  have hinv : InvV cfg S (seen cfg (reach cfg l pre)) := ⟨gc, fun _ => ⟨gi, gv⟩⟩
+  have hlr := revalidate_lr (cfg := cfg) (run_lrinv cfg pre (Pool.init l) (fun hc => by simp [Pool.init] at hc))
+  have hcar : Carried S (seen cfg (reach cfg l pre)) K1 K2 :=
+    ⟨gc, ListsOK.of_good gi gv, h1, h2, hr, by
+      intro w hw
+      have e1 : (seen cfg (reach cfg l pre)).lastReverted = [] := hlr.1
+      have e2 : (seen cfg (reach cfg l pre)).lastRevertedV2 = [] := hlr.2
+      rw [e1, e2] at hw; cases hw⟩
+  obtain ⟨hfin, _⟩ := run_carried (ops ++ [Op.query]) _ (K1, K2) hinv hcar hops hs
+  have hrun : run cfg (seen cfg (reach cfg l pre)) (ops ++ [Op.query]) = seen cfg (reach cfg l (pre ++ Op.query :: ops)) := by
+    unfold reach seen
+    rw [run_append, run_append]
+    simp [run, step]
+  rw [foldl_track_query, hrun] at hfin
+  exact ⟨hfin.sub1, hfin.sub2⟩
+
+/-- **retained, per transaction**: a member of such a set that no applied block of the history
+confirms is reported at the end — a v1 member as it is, a v2 member under its id (its inputs may
+have become confirmed) -/
+theorem retained_member (cfg : Cfg) (S : Nat → Bool × List Nat × List Nat) (l : Ledger) (pre ops : List Op)
+    (h : Hist S (pre ++ Op.query :: ops)) (K1 K2 : List Txn)
+    (h1 : K1.Sublist (seen cfg (reach cfg l pre)).txns) (h2 : K2.Sublist (seen cfg (reach cfg l pre)).v2txns)
+    (hr : Robust (seen cfg (reach cfg l pre)).led K1 K2)
+    (hs : Safe cfg (seen cfg (reach cfg l pre)) (K1, K2) (ops ++ [Op.query])) :
+    (∀ k ∈ K1, (∀ b ∈ appliedBlocks ops, k.id ∉ conf1 b) →
+      k ∈ (seen cfg (reach cfg l (pre ++ Op.query :: ops))).txns) ∧
+    (∀ k ∈ K2, (∀ b ∈ appliedBlocks ops, k.id ∉ conf2 b) →
+      k.id ∈ (seen cfg (reach cfg l (pre ++ Op.query :: ops))).v2txns.map (·.id)) := by
+  obtain ⟨r1, r2⟩ := retained cfg S l pre ops h K1 K2 h1 h2 hr hs
+  constructor
+  · intro k hk hn
+    exact r1.subset (track_ids1 ops (K1, K2) k hk hn)
+  · intro k hk hn
+    obtain ⟨k', hk', e⟩ := track_ids2 ops (K1, K2) k hk hn
+    exact List.mem_map.2 ⟨k', r2.subset hk', e⟩
+
+/-- a set that contains every pooled transaction creating an input of one of its members (e.g. a
+transaction together with all its pooled ancestors) is self-valid … -/
+theorem closed_is_self_valid (cfg : Cfg) (S : Nat → Bool × List Nat × List Nat) (l : Ledger) (ops : List Op) (h : Hist S ops)
+    (K1 K2 : List Txn) (h1 : K1.Sublist (seen cfg (reach cfg l ops)).txns) (h2 : K2.Sublist (seen cfg (reach cfg l ops)).v2txns)
+    (hc1 : ∀ c ∈ (seen cfg (reach cfg l ops)).txns, ∀ e ∈ c.outputs, e ∈ spentOf (K1 ++ K2) → c ∈ K1)
+    (hc2 : ∀ c ∈ (seen cfg (reach cfg l ops)).v2txns, ∀ e ∈ c.outputs, e ∈ spentOf (K1 ++ K2) → c ∈ K2) :
+    Robust (seen cfg (reach cfg l ops)).led K1 K2 := by
+  obtain ⟨_, gi, gv⟩ := seen_good cfg S l ops h
+  exact robust_of_closed gv gi h1 h2 hc1 hc2
+
+/-- … and so is the whole reported pool -/
+theorem whole_pool_self_valid (cfg : Cfg) (S : Nat → Bool × List Nat × List Nat) (l : Ledger) (ops : List Op) (h : Hist S ops) :
+    Robust (seen cfg (reach cfg l ops)).led (seen cfg (reach cfg l ops)).txns (seen cfg (reach cfg l ops)).v2txns :=
+  (seen_good cfg S l ops h).2.2.robust
+
+/-- **retained, whole pool, one applied block** (the frame form): when the block touches no input
+of any pooled transaction and crosses no rule boundary then — unless the pool is full — the pool
+reported afterwards is exactly the pool reported before, same transactions, same order. -/
+theorem retained_whole_pool (cfg : Cfg) (S : Nat → Bool × List Nat × List Nat) (l : Ledger) (ops : List Op) (h : Hist S ops)
     (b : Blk) (flags : List Bool)
     (hfull : (seen cfg (reach cfg l ops)).weight < cfg.maxWeight * 10)
     (hun : ∀ t ∈ (seen cfg (reach cfg l ops)).txns ++ (seen cfg (reach cfg l ops)).v2txns, ∀ i ∈ t.inputs,
       i.elem ∉ ids b.spent ∧ i.elem ∉ ids b.created)
     (hleaf : ∀ t ∈ (seen cfg (reach cfg l ops)).v2txns, proofsOk b.leavesAfter t = true)
-    (hr : SameRules cfg (seen cfg (reach cfg l ops)).led ((seen cfg (reach cfg l ops)).led.apply b))
-    (hre1 : ∀ w ∈ (seen cfg (reach cfg l ops)).lastReverted, ((seen cfg (reach cfg l ops)).indices w.id).isSome = true ∨
-      txValid cfg ((seen cfg (reach cfg l ops)).led.apply b) (msOf MidState.empty (seen cfg (reach cfg l ops)).txns) false w = false)
-    (hre2 : ∀ w ∈ zipBad (seen cfg (reach cfg l ops)).lastRevertedV2 flags, ((seen cfg (reach cfg l ops)).indices w.id).isSome = true ∨
-      txValid cfg ((seen cfg (reach cfg l ops)).led.apply b)
-        (msOf MidState.empty ((seen cfg (reach cfg l ops)).txns ++ (seen cfg (reach cfg l ops)).v2txns)) true w = false) :
+    (hr : SameRules cfg (seen cfg (reach cfg l ops)).led ((seen cfg (reach cfg l ops)).led.apply b)) :
     (seen cfg (reorg (seen cfg (reach cfg l ops)) [] [b] flags)).txns = (seen cfg (reach cfg l ops)).txns ∧
     (seen cfg (reorg (seen cfg (reach cfg l ops)) [] [b] flags)).v2txns = (seen cfg (reach cfg l ops)).v2txns := by
   obtain ⟨gc, gi, gv⟩ := seen_good cfg S l ops h
-  exact apply_frame cfg S _ b flags gv gi gc hfull hun hleaf hr hre1 hre2
-
-/-- TARGET (not proved): the per-transaction form, for any revert/apply path: a pooled transaction
-`t` is still reported after `reorg rev app` unless a block of the path confirms `t` or one of its
-pooled ancestors, spends or un-creates one of their inputs, or the pool is full.  Missing: the
-closure of `t` under pooled parents as an invariant of `refill` (a sub-sequence that is closed
-under parents is kept whatever happens to the rest), and the revert leg (`unconfirmInp`).  The
-harness's retention oracle checks exactly this statement on the real code after every step. -/
-def C05_retained_full : Prop :=
-  ∀ (cfg : Cfg) (S : Nat → Bool × List Nat × List Nat) (l : Ledger) (ops : List Op), Hist S ops →
-  ∀ (rev app : List Blk) (flags : List Bool) (t : Txn),
-    t ∈ (seen cfg (reach cfg l ops)).txns ++ (seen cfg (reach cfg l ops)).v2txns →
-    (seen cfg (reach cfg l ops)).weight < cfg.maxWeight * 10 →
-    (∀ u ∈ parentsOf ((seen cfg (reach cfg l ops)).txns ++ (seen cfg (reach cfg l ops)).v2txns) t ++ [t],
-      ∀ b ∈ rev ++ app, ∀ i ∈ u.inputs, i.elem ∉ ids b.spent ∧ i.elem ∉ ids b.created) →
-    t.id ∈ poolIds (seen cfg (reorg (seen cfg (reach cfg l ops)) rev app flags))
+  have hlr := revalidate_lr (cfg := cfg) (run_lrinv cfg ops (Pool.init l) (fun hc => by simp [Pool.init] at hc))
+  have e1 : (seen cfg (reach cfg l ops)).lastReverted = [] := hlr.1
+  have e2 : (seen cfg (reach cfg l ops)).lastRevertedV2 = [] := hlr.2
+  exact apply_frame cfg S _ b flags gv gi gc hfull hun hleaf hr (by rw [e1]; simp) (by rw [e2]; simp [zipBad])
 
 /-! ### non-vacuity -/
 
@@ -235,5 +307,33 @@ example :
   intro op hop
   simp only [List.mem_cons, List.not_mem_nil, or_false] at hop
   rcases hop with rfl | rfl <;> simp [OpConf, Conf, S0, tA, tB, tC]
+
+private def bConf : Blk := ⟨2, 3, 6, [], [tB], [(2, 1)], [(21, 3), (7, 4), (8, 5)]⟩   -- confirms B only
+
+/-- non-vacuity of `retained`: the pool `A | B, C` (C spends B's output) is a self-valid set; a block
+that confirms B (and nothing else of it) is safe for it; what is left — A, and C with its input now
+confirmed at leaf 3 — is reported afterwards.  (With `applyPoolUpdate` handed the pre-block state, a
+seeded change, C would be lost here.) -/
+example :
+    let pre : List Op := [.addV2 (some ([], [])) [tB, tC], .addV1 [tA]]
+    let ops : List Op := [.reorg [] [bConf] []]
+    Hist S0 (pre ++ Op.query :: ops) ∧
+    Safe cfg0 (seen cfg0 (reach cfg0 led0 pre)) ([tA], [tB, tC]) (ops ++ [Op.query]) ∧
+    ops.foldl track ([tA], [tB, tC]) = ([tA], [{ tC with inputs := [⟨21, some 3, false⟩] }]) ∧
+    [{ tC with inputs := [⟨21, some 3, false⟩] }].Sublist (seen cfg0 (reach cfg0 led0 (pre ++ Op.query :: ops))).v2txns := by
+  intro pre ops
+  have hh : Hist S0 (pre ++ Op.query :: ops) := by
+    intro op hop
+    simp only [pre, ops, List.cons_append, List.nil_append, List.mem_cons, List.not_mem_nil, or_false] at hop
+    rcases hop with rfl | rfl | rfl | rfl
+    · simp [OpConf, Conf, S0, tB, tC]
+    · simp [OpConf, Conf, S0, tA]
+    · trivial
+    · simp [OpConf]
+  have hsafe : Safe cfg0 (seen cfg0 (reach cfg0 led0 pre)) ([tA], [tB, tC]) (ops ++ [Op.query]) := by
+    refine ⟨⟨trivial, ⟨⟨by decide, by decide, by decide, by decide, by decide, ?_, by decide⟩, trivial⟩, by decide⟩, ⟨by decide, by decide, by decide⟩, trivial⟩
+    exact leaves_lt_of_all _ _ (by decide)
+  refine ⟨hh, hsafe, by decide, ?_⟩
+  exact (retained cfg0 S0 led0 pre ops hh [tA] [tB, tC] (by decide) (by decide) ⟨by decide, by decide⟩ hsafe).2
 
 end Verif.C05
